@@ -31,13 +31,71 @@ MODEL_QUICK = {"C07": 3, "C08": 3, "C09": 3}
 MODEL_THOROUGH = {p: 4 for p in ("C02", "C03", "C04", "C05", "C06", "C07", "C08", "C09", "C11", "C12", "C13", "C14", "C15", "C16", "C18", "C19", "C20")}
 
 
+# Vacuity guard: the outcome actions of the specification (prefixes of the labels printed by
+# Stack!OutcomeLabel) that a run of each check must have exercised with validated events.
+# A run that misses one did not test its property and is reported as a tool error, not as a pass.
+REQUIRED = {
+    "C01": ["EthShort", "ArpShort", "Ip4Short", "Ip6Short", "Icmp4Short", "Icmp6Short", "NsShort", "Tcp4Short", "Tcp6Short",
+            "Udp4Short", "Udp6Short", "Udp/STUN/any", "Udp/DNS/", "Udp/HTTP/", "Udp/SMB1/", "Udp/SMB2/", "Udp/RPC_UDP/", "Udp/SSH/",
+            "TcpDataKnownFlow/", "TcpDataFirstValid/"],
+    "C02": ["EthForeignMac", "EthTypeOther", "Ip4Denied", "Ip6Denied", "Ip4NotSelf", "Ip6NotSelf", "Ip4ProtoOther", "Ip6ProtoOther",
+            "ArpNotHandled", "NsNotHandled", "ArpReply", "NsAdvert", "Icmp4Echo", "Icmp6Echo", "TcpSynAck"],
+    "C03": ["ArpReply", "Icmp4Echo", "Icmp6Echo", "NsAdvert", "TcpSynAck", "TcpFinAck", "TcpDataFirstValid/", "Udp/STUN/must",
+            "Udp/DNS/must", "Udp/HTTP/must", "Udp/SSH/must", "Udp/RPC_UDP/must", "Udp/SMB1/must", "Udp/SMB2/must", "Udp/GHOST/must"],
+    "C04": ["ArpReply", "Icmp4Echo", "Icmp6Echo", "NsAdvert", "TcpSynAck", "TcpFinAck", "TcpDataFirstValid/", "Udp/STUN/must",
+            "Udp/DNS/must", "Udp/HTTP/must", "Udp/RPC_UDP/must", "Udp/SMB1/must", "Udp/SMB2/must"],
+    "C05": ["ArpReply", "ArpNotRequest", "ArpNotHandled", "Icmp4Echo", "Icmp4Other", "Icmp4Short", "Icmp6Echo", "Icmp6Other",
+            "Icmp6CodeNZ", "NsAdvert", "NsNotHandled", "NsShort"],
+    "C06": ["TcpSynAck", "TcpSynRefused", "TcpRstSilent", "TcpSynAckSilent"],
+    "C07": ["TcpDataFirstValid/", "TcpDataKnownFlow/", "TcpDataBadCookie", "TcpDataUnboundCookie", "TcpAckSilent", "TcpRstSilent", "TcpFinAck", "TcpSynAck"],
+    "C08": ["TcpDataFirstValid/", "TcpDataKnownFlow/HTTP/must", "TcpDataKnownFlow/RPC_TCP/", "TcpDataBadCookie"],
+    "C09": ["TcpDataFirstValid/", "TcpDataKnownFlow/", "TcpDataBadCookie", "TcpSynAck", "TcpSynRefused", "TcpAckSilent", "TcpRstSilent",
+            "TcpFinAck", "Udp/", "ArpReply", "Icmp4Echo"],
+    "C10": ["Udp/HTTP/must", "Udp/STUN/must", "Udp/SSH/must", "Udp/GHOST/must", "Udp/RPC_UDP/must", "Udp/SMB1/must", "Udp/SMB2/must",
+            "TcpDataFirstValid/HTTP/must", "TcpDataFirstValid/RPC_TCP/must", "TcpDataFirstValid/SSH/must", "TcpDataFirstValid/SMB1/must",
+            "TcpDataFirstValid/SMB2/must", "TcpDataFirstValid/STUN/must", "TcpDataKnownFlow/HTTP/must", "TcpDataKnownFlow/RPC_TCP/must",
+            "TcpDataFirstValid/none/mustnot"],
+    "C11": ["TcpDataKnownFlow/HTTP/must", "TcpDataKnownFlow/HTTP/mustnot", "TcpDataKnownFlow/RPC_TCP/must", "TcpDataKnownFlow/RPC_TCP/mustnot",
+            "TcpDataFirstValid/HTTP/must", "TcpDataFirstValid/RPC_TCP/must", "TcpDataFirstValid/none/mustnot", "TcpDataKnownFlow/none/mustnot"],
+    "C12": ["ArpNotRequest", "Icmp4Other", "Icmp6Other", "TcpRstSilent", "TcpSynAckSilent", "TcpSynRefused", "Udp/DNS/mustnot/dns-response",
+            "Udp/SMB1/mustnot/smb1-reply-flag", "Udp/SMB2/mustnot/smb2-reply-flag", "TcpDataFirstValid/SMB1/mustnot/smb1-reply-flag"],
+    "C13": ["Udp/HTTP/must", "Udp/HTTP/mustnot", "Udp/HTTP/any", "TcpDataFirstValid/HTTP/must", "TcpDataFirstValid/HTTP/mustnot",
+            "TcpDataKnownFlow/HTTP/must", "TcpDataFirstValid/none/mustnot"],
+    "C14": ["Udp/DNS/must/dns-in-a-query", "Udp/DNS/mustnot/dns-question-not-in-a", "Udp/DNS/mustnot/dns-truncated", "Udp/DNS/any"],
+    "C15": ["Udp/STUN/must/stun-binding-request", "Udp/STUN/any/stun-malformed", "TcpDataFirstValid/STUN/must"],
+    "C16": ["Udp/RPC_UDP/must/rpc-call", "Udp/RPC_UDP/any", "TcpDataFirstValid/RPC_TCP/must"],
+    "C17": ["Udp/SMB1/must/smb1-negotiate", "Udp/SMB1/must/smb1-session-setup", "Udp/SMB2/must/smb2-negotiate", "Udp/SMB2/must/smb2-session-setup",
+            "Udp/SMB1/mustnot/smb1-reply-flag", "Udp/SMB1/mustnot/smb1-other-command", "Udp/SMB2/mustnot/smb2-reply-flag",
+            "Udp/SMB2/mustnot/smb2-other-command", "Udp/SMB2/mustnot/smb2-no-supported-dialect", "TcpDataFirstValid/SMB1/must", "TcpDataFirstValid/SMB2/must"],
+    "C18": ["Udp/SSH/must", "Udp/SSH/mustnot", "Udp/GHOST/must", "TcpDataFirstValid/SSH/must", "TcpDataFirstValid/SSH/mustnot", "TcpDataFirstValid/GHOST/must"],
+    "C19": ["Udp/HTTP/must", "Udp/STUN/must", "Udp/DNS/", "Udp/RPC_UDP/must", "Udp/SMB1/must", "Udp/SMB2/must", "Udp/SSH/must", "Udp/GHOST/must",
+            "TcpDataFirstValid/HTTP/must", "TcpDataFirstValid/RPC_TCP/must"],
+    "C20": ["EthShort", "EthForeignMac", "EthTypeOther", "ArpShort", "ArpReply", "ArpNotRequest", "Ip4Short", "Ip6Short", "Ip4Denied", "Ip6Denied",
+            "Ip4NotSelf", "Ip6NotSelf", "Ip4ProtoOther", "Ip6ProtoOther", "Icmp4Short", "Icmp4Echo", "Icmp4Other", "Icmp6Echo", "Icmp6Other",
+            "Icmp6CodeNZ", "NsAdvert", "NsNotHandled", "NsShort", "Tcp4Short", "Tcp6Short", "Udp4Short", "Udp6Short", "TcpSynAck", "TcpFinAck",
+            "TcpAckSilent", "TcpRstSilent", "TcpSynAckSilent", "TcpSynRefused", "TcpOtherFlags", "TcpDataUnboundCookie", "TcpDataFirstValid/", "Udp/"],
+}
+
+
+def _vacuity(prop, outcomes):
+    return [q for q in REQUIRED.get(prop, []) if not any(k.startswith(q) for k in outcomes)]
+
+
 def _run(runner, prop, tier, seed, t0, rule, level="model_checking", jobs=12, extra_cov=None, chunk_events=1500):
     gens.known_witnesses(runner, prop)
     depth = (MODEL_QUICK if tier == "quick" else MODEL_THOROUGH).get(prop)
     if depth:
         _model(runner, prop, tier, seed, depth)
     runner.flush(jobs=jobs, chunk_events=chunk_events)
-    return finish(prop, tier, seed, runner, runner.res, t0, level, rule, extra_cov=extra_cov)
+    missing = _vacuity(prop, runner.res["outcomes"])
+    extra = dict(extra_cov or {})
+    extra["required_outcome_actions"] = REQUIRED.get(prop, [])
+    extra["required_outcome_actions_missing"] = missing
+    rc = finish(prop, tier, seed, runner, runner.res, t0, level, rule, extra_cov=extra)
+    if rc == 0 and missing:
+        print("TOOL-ERROR: vacuous run, outcome actions never exercised: %s" % ", ".join(missing))
+        return 2
+    return rc
 
 
 def check_C02(runner, tier, seed, t0):
